@@ -1,10 +1,17 @@
 import PacketVerif.Model.ArpHunt
+import PacketVerif.Model.ArpFrame
 import PacketVerif.Drv.Accept
 namespace PV.Drv.ArpHunt
-open PV PV.Model.ArpHunt PV.Drv.Accept
+open PV PV.Model PV.Model.ArpHunt PV.Drv.Accept
 
 /-!
-  line protocol (C13):  `arp.trace [scn=…] <event>@<ms> …`  → `accept` | `reject <index> <why>`
+  line protocol (C13):
+  `arp.frame <hostMAC> <routerMAC> <lanAddr> <lanBits> <routerIP> <hunted MACs csv|-> <offer MAC|-> <offer IP|-> <frame>`
+        function mode over RAW frames: Parse, dispatch on PayloadARP, arp.ProcessPacket on a handler whose
+        hunt list holds the given MACs and whose session has the given DHCP offer outstanding
+        → `perr=<0|1> pid=<n> ret=<-|nil|Err…> out=<-|Y:<mac>|J:<mac>:<ip>> | ev=<machine event>`
+          (Y = forged reply decided, J = probe reject; `ev` = `Model.ArpFrame.arpEventOf`)
+  `arp.trace [scn=…] <event>@<ms> …`  → `accept` | `reject <index> <why>`
 
       Sc<k>:<mac>:<valid 0|1>        StartHunt called            Sr<k>:<e|o>   returned ErrInvalidIP / ok
       Xc<k>:<mac>:<ip>               StopHunt called (addr.IP)   Xr<k>
@@ -219,8 +226,55 @@ def machine : Machine AState Obs :=
   { key := AState.key, hidden := hidden, apply := applyObs, name := obsName,
     prep := fun a o => { a with tnext := o.t } }
 
+def evStr : Event → String
+  | .rxRequest e m r => s!"request:{toHex e}:{toHex m}:{if r then 1 else 0}"
+  | .rxProbe m o t l => s!"probe:{toHex m}:{match o with | some x => toHex x | none => "-"}:{toHex t}:{if l then 1 else 0}"
+  | .rxOther => "other"
+  | _ => "?"
+
+def arpRet : Ndp.ArpClass → String
+  | .errLen => "ErrFrameLen" | .errHType => "ErrParseFrame" | .errProto => "ErrParseProtocol"
+  | .errHLen | .errPLen => "ErrInvalidLen"
+  | _ => "nil"
+
+/-- raw-frame function mode: the composed classification and what a handler in state `hunt` does with it -/
+def frameLine (c : ArpFrame.Cfg) (hunt : List Bytes) (offer : Bytes → Option Bytes) (p : Bytes) : String :=
+  match parse c.parse p with
+  | .ok r =>
+    let perr := if r.err.isSome then 1 else 0
+    let ret : String :=
+      if r.err.isSome ∨ r.frame.pid ≠ Pid.arp then "-"
+      else match (sliceFrom p r.frame.offPayload >>= Ndp.arpClassify) with
+        | .ok cl => arpRet cl
+        | .err e => e.toString
+        | .panic => "panic"
+        | .hang => "hang"
+    match ArpFrame.arpEventOf c offer p with
+    | .ok ev =>
+      let e := match ev with | some e => e | none => Event.rxOther
+      let out := match step { hunt := hunt } e with
+        | some (s', o) =>
+          match s'.holder, o with
+          | some (.rx m), _ => "Y:" ++ toHex m
+          | _, .probeReject m ip => "J:" ++ toHex m ++ ":" ++ toHex ip
+          | _, _ => "-"
+        | none => "disabled"
+      s!"perr={perr} pid={r.frame.pid} ret={ret} out={out} | ev={match ev with | some e => evStr e | none => "none"}"
+    | .panic => "panic"
+    | .hang => "hang"
+    | .err e => "err " ++ e.toString
+  | .panic => "panic"
+  | .hang => "hang"
+  | .err e => "err " ++ e.toString
+
 def handle (cmd : String) (args : List String) : Option String :=
   match cmd, args with
+  | "arp.frame", [hm, rm, la, lb, rip, hunt, om, oip, h] => do
+    let hm ← fromHex hm; let rm ← fromHex rm; let la ← fromHex la; let lb ← lb.toNat?; let rip ← fromHex rip
+    let hl ← (if hunt == "-" then some [] else (hunt.splitOn ",").mapM fromHex)
+    let om ← fromHex om; let oip ← fromHex oip; let b ← fromHex h
+    let offer : Bytes → Option Bytes := fun m => if oip.length = 4 ∧ m = om then some oip else none
+    some (frameLine { parse := ⟨hm, rm, la, lb⟩, routerIP := rip } hl offer b)
   | "arp.trace", toks => do
     let obs ← (toks.filter (fun t => ¬ t.startsWith "scn=")).mapM parseObs
     some (accept machine { s := {}, open_ := [] } obs)
